@@ -15,6 +15,8 @@
 package c21
 
 import (
+	"strings"
+	"io"
 	"context"
 	"errors"
 	"fmt"
@@ -409,6 +411,77 @@ func runScripted(r *vh.Run, f *failer, idx int, kind string) {
 	}
 
 	judgeInit(r, f, c, b.Requests(), userFrames, ambiguous, loaded, idx)
+	if kind == "readvertise" && loaded {
+		// the broker is "restarted" with another version: it advertises a different table and
+		// every connection dies; from the client's next connection on, requests must be
+		// negotiated against the NEW table (the user's bounds are unchanged)
+		c2 := *c
+		other := genCase(r, idx+1<<20, "ranges")
+		c2.Adv, c2.ApiMax, c2.Mode = other.Adv, other.ApiMax, other.Mode
+		am2 := c2.ApiMax
+		b.SetVersions(rawkafka.Versions{Ranges: c2.Adv, ApiVersionsMax: &am2, OnUnsupported: c2.Mode})
+		b.KillConns()
+		b.WaitConnsClosed(2 * time.Second)
+		// The client can only negotiate against what it has been told: calls are judged against
+		// the new table once it has asked ApiVersions again on a fresh connection. Until then
+		// (its cached connection objects may not have noticed they are dead) Metadata calls are
+		// issued without judging them.
+		switched := b.NumRequests()
+		told := false
+		for try := 0; try < 20 && !told; try++ {
+			ctx, cancel := context.WithTimeout(context.Background(), 5*time.Second)
+			vh.Catch(func() { seed.Request(ctx, kmsg.NewPtrMetadataRequest()) })
+			cancel()
+			for _, h := range b.Requests()[switched:] {
+				if h.Key == 18 {
+					told = true
+				}
+			}
+		}
+		if !told {
+			r.Count("readvertise_client_never_asked_again", 1)
+			return
+		}
+		rng.Shuffle(len(keys), func(i, j int) { keys[i], keys[j] = keys[j], keys[i] })
+		keys2 := append([]int16{3}, keys...)
+		for _, k := range keys2 {
+			if k == 18 || k == 7 {
+				continue // attribution of ApiVersions frames / unparseable ControlledShutdown v0: judged in phase one only
+			}
+			req := kmsg.RequestForKey(k)
+			n0, c0 := b.NumRequests(), b.Conns()
+			var rerr error
+			var p any
+			for try := 0; try < 3; try++ {
+				ctx, cancel := context.WithTimeout(context.Background(), 10*time.Second)
+				p = vh.Catch(func() { _, rerr = seed.Request(ctx, req) })
+				cancel()
+				// a call that ran into one of the connections we just killed (EOF / reset, nothing
+				// of this key reached the broker) says nothing about versions: issue it again
+				if p == nil && rerr != nil && b.NumRequests() == n0 && !errors.Is(rerr, context.DeadlineExceeded) &&
+					(errors.Is(rerr, io.EOF) || strings.Contains(rerr.Error(), "connection") || strings.Contains(rerr.Error(), "EOF") || strings.Contains(rerr.Error(), "broken pipe")) {
+					r.Count("readvertise_call_hit_dying_connection", 1)
+					continue
+				}
+				break
+			}
+			if p != nil || errors.Is(rerr, context.DeadlineExceeded) {
+				r.Inconclusive(fmt.Sprintf("readvertise case %d key %d: panic %v / err %v", idx, k, p, rerr))
+				return
+			}
+			o := callObs{Key: k, Name: kmsg.NameForKey(k), NewConn: b.Conns() != c0, Pred: predict(&c2, k, loaded)}
+			if rerr != nil {
+				o.Err = rerr.Error()
+			}
+			for _, h := range b.Requests()[n0:] {
+				if h.Key == k {
+					o.Frames = append(o.Frames, h.Version)
+				}
+			}
+			r.Count("calls_after_readvertisement", 1)
+			judgeCall(r, f, &c2, &o, idx)
+		}
+	}
 	if r.WantSample() {
 		r.Sample(map[string]any{"kind": kind, "case": idx, "user_max": c.UserMaxNm, "user_min": c.UserMinNm, "apiversions_max": c.ApiMax,
 			"mode": c.Mode, "first_calls": calls[:6]})
@@ -585,12 +658,14 @@ func TestCheck(t *testing.T) {
 	vh.Parallel(nRanges, workers, func(i int) { runScripted(r, f, i, "ranges") })
 	vh.Parallel(nNoAPI, workers, func(i int) { runScripted(r, f, i, "noapi") })
 	vh.Parallel(nReset, workers, func(i int) { runScripted(r, f, i, "reset") })
+	nReadv := r.Pick(60, 2000)
+	vh.Parallel(nReadv, workers, func(i int) { runScripted(r, f, i, "readvertise") })
 	vh.Parallel(nPins, workers, func(i int) { runPins(r, f, i) })
 	vh.Parallel(nTap, 3, func(i int) { runTap(r, f, i) })
-	r.Count("scripted_cases", nRanges+nNoAPI+nReset+nPins)
+	r.Count("scripted_cases", nRanges+nNoAPI+nReset+nReadv+nPins)
 
 	r.Finish("exploration",
-		"cases: seeded broker advertisements (near-client, release tables, arbitrary, controller-like without Produce, newer-than-client) x user MaxVersions (default Stable, nil, release, custom, without key 18) x MinVersions (none, release, custom) x ApiVersions handling (KIP-511, pre-2.4, all-keys, connection reset); every kmsg key issued once per case through Broker.Request; pin-selecting shapes through Client.Request; plus every frame of real workloads against kfake. Non-trivial: the advertised range differs from the client's own range for the key; distinct by (key, which bound decided + lower-bound relation), init handling by (mode, broker ApiVersions max, client max)",
+		"cases: seeded broker advertisements (near-client, release tables, arbitrary, controller-like without Produce, newer-than-client) x user MaxVersions (default Stable, nil, release, custom, without key 18) x MinVersions (none, release, custom) x ApiVersions handling (KIP-511, pre-2.4, all-keys, connection reset, re-advertisement: the broker switches to another table and drops every connection, all keys are issued again and judged against the new table); every kmsg key issued once per case through Broker.Request; pin-selecting shapes through Client.Request; plus every frame of real workloads against kfake. Non-trivial: the advertised range differs from the client's own range for the key; distinct by (key, which bound decided + lower-bound relation), init handling by (mode, broker ApiVersions max, client max)",
 		"the scripted broker answers every accepted request with the zero-valued response of its kind",
 		"'client's supported maximum' is kmsg's MaxVersion for the key, and the default MaxVersions table (kversion.Stable) when the user sets none",
 		"the first ApiVersions attempt on a connection cannot know the broker's range and is only judged against the client/user maxima",
